@@ -340,7 +340,7 @@ func c02Plugin(pre bool) {
 	var caps []string
 	plug := &kitPlugin{}
 	mgr := &kitManager{plugins: map[string]*kitPlugin{}}
-	respTI, respRC := 1, 1 // 0 absent, 1 present
+	respTI, respRC := 1, 1 // 0 absent, 1 present, 2 present with a null verdict
 	okTI, okRC := true, true
 	processed, callErr := true, false
 	w.extShape = 0
@@ -374,7 +374,8 @@ func c02Plugin(pre bool) {
 				w.extShape = vr.Choice("extendedAttribute", 3) // 0 none, 1 critical, 2 non-critical
 			}
 			attrs = append(attrs, c02ExtAttrs(w.extShape)...)
-			respTI, respRC = vr.Choice("verdict.trustedIdentity", 2), vr.Choice("verdict.revocation", 2)
+			// 2: the capability is listed with a null verdict (JSON null in the plugin's reply): no verdict
+			respTI, respRC = vr.Choice("verdict.trustedIdentity", 3), vr.Choice("verdict.revocation", 3)
 			okTI, okRC = vr.Bool("verdict.trustedIdentity.success"), vr.Bool("verdict.revocation.success")
 			processed, callErr = vr.Bool("attribute.processed"), vr.Bool("plugin.callError")
 		}
@@ -384,6 +385,12 @@ func c02Plugin(pre bool) {
 		}
 		plug.verifyErr = callErr
 		resp := &pluginframework.VerifySignatureResponse{VerificationResults: map[pluginframework.Capability]*pluginframework.VerificationResult{}}
+		if respTI == 2 {
+			resp.VerificationResults[pluginframework.CapabilityTrustedIdentityVerifier] = nil
+		}
+		if respRC == 2 {
+			resp.VerificationResults[pluginframework.CapabilityRevocationCheckVerifier] = nil
+		}
 		if respTI == 1 {
 			resp.VerificationResults[pluginframework.CapabilityTrustedIdentityVerifier] = &pluginframework.VerificationResult{Success: okTI}
 		}
@@ -446,7 +453,7 @@ func c02Plugin(pre bool) {
 	critical := w.extShape == 1
 	pluginFail := vr.Or(callErr,
 		vr.And(critical, vr.Not(processed)),
-		vr.And(askTI, respTI == 0), vr.And(askRC, respRC == 0),
+		vr.And(askTI, respTI != 1), vr.And(askRC, respRC != 1),
 		vr.And(askTI, respTI == 1, vr.Not(okTI), authAct == "enforce"),
 		vr.And(askRC, respRC == 1, vr.Not(okRC), revAct == "enforce"))
 	fail := vr.Or(preFail, nativeFail, vr.And(executed, pluginFail), vr.And(vr.Not(executed), critical))
